@@ -34,9 +34,9 @@ fcppt::intrusive::list<Type> &fcppt::intrusive::list<Type>::operator=(list &&_ot
 
   if (_other.empty())
   {
-    this->head_.next_ = &this->head_;
-
-    this->head_.prev_ = &this->head_;
+    // Take the head out of the ring of the old members. Only resetting the
+    // head's own links would leave them pointing at it.
+    this->head_.unlink();
   }
   else
   {
